@@ -13,9 +13,11 @@ initial state has the declared values in slot order, setters touch only their ow
 only their own slot, get-after-set round-trips through the unit tables (C09's bound), add accumulates
 in the feature's own unit, extension keeps existing slots.
 
-Finding (DESIGN §7, key `container/new-duplicate-key`): `CompactOrderedHashMap::new` on a list with a
-repeated key breaks the invariant — `new_duplicate_key_counterexample` below; the general theorem about
-`new` therefore carries the hypothesis "keys pairwise distinct" (`new_refines_partial`).
+History (key `container/new-duplicate-key`, repaired in /repo 6da9498): `CompactOrderedHashMap::new`
+on a list with a repeated key used to keep each surviving key's enumerate position (gaps in the stored
+indices: `len = 1`, empty iteration).  `new` now inserts one by one in that case; `new_refines` below
+holds for EVERY entry list, and the old witnesses are positive theorems (`new_duplicate_key_repaired`,
+`new_duplicate_key_then_insert_repaired`, `new_duplicate_name_repaired`).
 -/
 import Compass.Proofs.Container
 import Compass.Proofs.StateModel
@@ -66,27 +68,33 @@ theorem insert_refines (c : Container K V) (h : Inv c) (k : K) (v : V) :
 theorem empty_refines : Inv (empty : Container K V) ∧ Container.abs (empty : Container K V) = [] :=
   ⟨inv_empty, abs_empty⟩
 
-/- Full statement (false of the code, see the counterexample below):
-     ∀ entries, Inv (new entries) ∧ Container.abs (new entries) = Spec.insertAll [] entries
-   Proved under the hypothesis that the keys of `entries` are pairwise distinct (then
-   `Spec.insertAll [] entries = entries`).  What is missing: lists with a repeated key. -/
-theorem new_refines_partial (entries : List (K × V)) (nd : (entries.map (·.1)).Nodup) :
-    Inv (new entries) ∧ Container.abs (new entries) = entries ∧ Spec.insertAll [] entries = entries :=
-  ⟨(new_refines entries nd).1, (new_refines entries nd).2, Spec.insertAll_nil_of_nodup entries nd⟩
+/-- `new` on EVERY entry list, at every length, repeated keys included: the invariant holds and the
+    container stands for the insertion-ordered association list of the entries (a repeated key keeps
+    its first position and its last value) — exactly what `from_iter` builds -/
+theorem new_refines (entries : List (K × V)) :
+    Inv (new entries) ∧ Container.abs (new entries) = Spec.insertAll [] entries ∧
+      Container.abs (new entries) = Container.abs (fromIter entries) :=
+  ⟨(Container.new_refines entries).1, (Container.new_refines entries).2,
+    by rw [(Container.new_refines entries).2, (fromIter_refines entries).2]⟩
 
-/-- `new [(1,10),(1,20)]`: one entry with stored index 1 — `len = 1` but iteration yields nothing,
-    position 0 is empty, position 1 (= `len`, out of range) answers, the key claims slot 1; an
-    insertion-ordered map would hold `[(1,20)]` at position 0 -/
-theorem new_duplicate_key_counterexample :
+/-- with pairwise distinct keys that list is the entry list itself -/
+theorem new_refines_distinct (entries : List (K × V)) (nd : (entries.map (·.1)).Nodup) :
+    Container.abs (new entries) = entries := by
+  rw [(Container.new_refines entries).2, Spec.insertAll_nil_of_nodup entries nd]
+
+/-- the old witness `new [(1,10),(1,20)]` (was: `len = 1`, empty iteration, claimed slot 1): now one
+    entry at position 0 holding the last value -/
+theorem new_duplicate_key_repaired :
     let c : Container Nat Nat := new [(1, 10), (1, 20)]
-    c.len = 1 ∧ c.iter = [] ∧ c.toVec = [] ∧ c.getPair 0 = none ∧ c.getPair 1 = some (1, 20) ∧
-      c.getIndex 1 = some 1 ∧ c.keys = [1] ∧ ¬ Inv c ∧ Spec.insertAll [] [(1, 10), (1, 20)] = [(1, 20)] := by
+    c.len = 1 ∧ c.iter = [(1, 20)] ∧ c.toVec = [(1, ⟨20, 0⟩)] ∧ c.getPair 0 = some (1, 20) ∧
+      c.getPair 1 = none ∧ c.getIndex 1 = some 0 ∧ c.keys = [1] ∧ Inv c := by
   decide
 
-/-- after `new` with a repeated key, inserting a fresh key can make two keys share a stored index -/
-theorem new_duplicate_key_then_insert_counterexample :
+/-- the old witness of two keys sharing a stored index: now three entries in three slots -/
+theorem new_duplicate_key_then_insert_repaired :
     let c : Container Nat Nat := ((new [(0, 10), (0, 20), (1, 30)]).insert 2 40).1
-    c.len = 3 ∧ c.getIndex 1 = some 2 ∧ c.getIndex 2 = some 2 ∧ c.iter = [] := by
+    c.len = 3 ∧ c.getIndex 0 = some 0 ∧ c.getIndex 1 = some 1 ∧ c.getIndex 2 = some 2 ∧
+      c.iter = [(0, 20), (1, 30), (2, 40)] := by
   decide
 
 /-- `from_iter` on any list (repeated keys included: the later value wins, the first position stays) -/
@@ -107,24 +115,19 @@ def Start.build : Start K V → Container K V
   | .new es => Container.new es
   | .fromIter es => Container.fromIter es
 
-/-- `new` needs pairwise distinct keys (see the finding above) -/
-def Start.ok : Start K V → Prop
-  | .new es => (es.map (·.1)).Nodup
-  | _ => True
-
 def Start.spec : Start K V → List (K × V)
   | .empty => []
-  | .new es => es
+  | .new es => Spec.insertAll [] es
   | .fromIter es => Spec.insertAll [] es
 
 /-- every history of inserts and overwrites, from every start, at every size: the container stands
     for exactly the association list the same history produces, and the invariant holds -/
-theorem history_refines (s : Start K V) (hs : s.ok) (ops : List (K × V)) :
+theorem history_refines (s : Start K V) (ops : List (K × V)) :
     Inv (insertAll s.build ops) ∧ Container.abs (insertAll s.build ops) = Spec.insertAll s.spec ops := by
   have h0 : Inv s.build ∧ Container.abs s.build = s.spec := by
     cases s with
     | empty => exact ⟨inv_empty, abs_empty⟩
-    | new es => exact new_refines es hs
+    | new es => exact Container.new_refines es
     | fromIter es => exact fromIter_refines es
   have := insertAll_refines h0.1 ops
   rw [h0.2] at this
@@ -148,6 +151,13 @@ theorem get_index_refines (c : Container K V) (h : Inv c) (k : K) :
     harmless only because no stored index equals `len` under the invariant) -/
 theorem get_pair_refines (c : Container K V) (h : Inv c) (i : Nat) : c.getPair i = (Container.abs c)[i]? :=
   getPair_abs h i
+
+/-- the code's guard in the `NEntries` arm is `index > len` rather than `≥`; this cannot be observed:
+    in every reachable container (any start, any history) `get_pair` answers `None` at every index
+    from `len` on, `len` itself included -/
+theorem get_pair_out_of_range (s : Start K V) (ops : List (K × V)) (i : Nat)
+    (hi : (insertAll s.build ops).len ≤ i) : (insertAll s.build ops).getPair i = none :=
+  getPair_out_of_range (history_refines s ops).1 hi
 
 theorem keys_refines (c : Container K V) : c.keys = (Container.abs c).map (·.1) := keys_abs c
 
@@ -209,11 +219,11 @@ example :
       [(7, 0), (3, 1), (9, 2), (1, 3), (4, 4), (8, 5), (3, 6), (2, 7), (6, 8), (8, 9)]
     Inv c ∧ c.len = 8 ∧ c.iter = [(7, 0), (3, 6), (9, 2), (1, 3), (4, 4), (8, 9), (2, 7), (6, 8)] ∧
       c.getIndex 6 = some 7 ∧ c.getPair 7 = some (6, 8) ∧ c.getPair 8 = none := by
-  refine ⟨(history_refines Start.empty trivial _).1, ?_⟩
+  refine ⟨(history_refines Start.empty _).1, ?_⟩
   decide
 
-example : Inv (new [(5, 0), (4, 1), (3, 2), (2, 3), (1, 4), (0, 5), (9, 6)] : Container Nat Nat) :=
-  (new_refines_partial _ (by decide)).1
+example : Inv (new [(5, 0), (4, 1), (3, 2), (2, 3), (1, 4), (0, 5), (5, 7), (9, 6)] : Container Nat Nat) :=
+  (new_refines _).1
 
 /-! ## Part B — the state model -/
 
@@ -224,11 +234,15 @@ open StateModel
 
 /-! ### construction -/
 
-/- Full statement (false of the code, same finding as above): every feature list yields a
-   well-formed model.  Proved for pairwise distinct names — which is what a JSON/TOML `[state]`
-   table, the only caller outside tests, guarantees. -/
-theorem new_wf_partial (fs : List (String × StateFeature α)) (nd : (fs.map (·.1)).Nodup) :
-    WF (StateModel.new fs) ∧ feats (StateModel.new fs) = fs := wf_new fs nd
+/-- EVERY feature list — any length, any kinds, repeated names included — yields a well-formed
+    model whose ordered feature list is the insertion-ordered association list of the declarations
+    (a repeated name keeps its first slot and its last declaration) -/
+theorem new_wf (fs : List (String × StateFeature α)) :
+    WF (StateModel.new fs) ∧ feats (StateModel.new fs) = Spec.insertAll [] fs := wf_new fs
+
+/-- with pairwise distinct names the ordered feature list is the declaration list itself -/
+theorem new_wf_distinct (fs : List (String × StateFeature α)) (nd : (fs.map (·.1)).Nodup) :
+    feats (StateModel.new fs) = fs := (wf_new_of_nodup fs nd).2
 
 theorem empty_wf : WF (StateModel.empty : StateModel α) ∧ feats (StateModel.empty : StateModel α) = [] :=
   wf_empty
@@ -269,7 +283,7 @@ theorem slot_surjective (m : StateModel α) (h : WF m) (i : Nat) (hi : i < m.len
 /-- the `i`-th declared feature gets slot `i` -/
 theorem new_slot (fs : List (String × StateFeature α)) (nd : (fs.map (·.1)).Nodup) (i : Nat)
     (hi : i < fs.length) : (StateModel.new fs).getIndex (fs[i]).1 = some i := by
-  have h := wf_new fs nd
+  have h := wf_new_of_nodup fs nd
   rw [getIndex_eq h.1]
   simp only [h.2]
   exact Spec.indexOf_surj nd hi
@@ -705,7 +719,7 @@ example : StateModel.WF (StateModel.new seven) ∧ (StateModel.new seven).len = 
     (StateModel.new seven).getIndex "charges" = some 5 ∧
     (StateModel.new seven).getIndex "charging" = some 6 ∧
     (StateModel.new seven).getIndex "nope" = none := by
-  refine ⟨(new_wf_partial seven (by decide)).1, ?_⟩
+  refine ⟨(new_wf seven).1, ?_⟩
   decide
 
 /-- extension of a four-feature configuration by three model features succeeds and keeps slots -/
@@ -714,11 +728,12 @@ example : ∃ m', (StateModel.new (seven.take 4)).extend (seven.drop 4) = .ok m'
   refine ⟨_, rfl, ?_⟩
   decide
 
-/-- a feature list with a repeated name handed to `StateModel::new`: one feature, claimed slot 1,
-    an empty initial state (the container finding seen through the state model) -/
-theorem new_duplicate_name_counterexample :
+/-- the old witness of a repeated name handed to `StateModel::new` (was: one feature claiming slot 1
+    and an empty initial state): now one feature in slot 0 with the last declaration -/
+theorem new_duplicate_name_repaired :
     let m : StateModel ℚ := StateModel.new [("d", .distance .miles 1), ("d", .distance .meters 2)]
-    m.len = 1 ∧ m.getIndex "d" = some 1 ∧ m.iter.length = 0 ∧ ¬ StateModel.WF m := by
+    StateModel.WF m ∧ m.len = 1 ∧ m.getIndex "d" = some 0 ∧ m.iter.length = 1 ∧
+      (m.initialState.toOption.map List.length) = some 1 := by
   decide
 
 end examples
